@@ -452,3 +452,45 @@ func ScratchDir(prefix string) (string, func()) {
 
 // JoinLabels is a helper for diagnostics.
 func JoinLabels(ls []string) string { return strings.Join(ls, ",") }
+
+// Watchdog runs f in its own goroutine and waits up to budget for it. It
+// returns the recovered panic (with stack) if f panicked and whether f failed
+// to return within the budget. The budget is a liveness bound several orders
+// of magnitude above the normal cost, never a performance assertion.
+func Watchdog(budget time.Duration, f func()) (panicMsg string, hung bool) {
+	done := make(chan string, 1)
+	go func() {
+		defer func() {
+			if e := recover(); e != nil {
+				st := string(debug.Stack())
+				if len(st) > 3000 {
+					st = st[:3000]
+				}
+				done <- fmt.Sprintf("panic: %v\n%s", e, st)
+				return
+			}
+			done <- ""
+		}()
+		f()
+	}()
+	select {
+	case m := <-done:
+		return m, false
+	case <-time.After(budget):
+		return "", true
+	}
+}
+
+// OneIn draws a boolean that is true roughly once in n draws. rapid's integer
+// generators are heavily biased towards small values and range ends (0 comes
+// up ~10% of the time in IntRange(0,150)), so rare features are keyed to a
+// mid-range value; shrinking (towards 0) then switches the feature off.
+func OneIn(t *rapid.T, n int, label string) bool {
+	if n <= 1 {
+		return true
+	}
+	if n < 8 {
+		return rapid.IntRange(0, n-1).Draw(t, label) == n-1
+	}
+	return rapid.IntRange(0, n/2).Draw(t, label) == n/4+1
+}
